@@ -9,14 +9,14 @@ PROPERTY = "C04"
 LIMIT = 400  # virtual seconds after which a client call that has not returned is reported
 
 
-def build(layers, base, hooks):
+def build(layers, base, hooks, workers=2):
     from more_executors import Executors
     from more_executors.futures import f_return
 
     if base == "sync":
         ex = Executors.sync()
     else:
-        ex = Executors.thread_pool(max_workers=2)
+        ex = Executors.thread_pool(max_workers=workers)
     chain = [ex]
     for ln in layers:
         if ln == "map":
@@ -33,6 +33,8 @@ def build(layers, base, hooks):
             ex = ex.with_throttle(2, block=True)
         elif ln == "timeout":
             ex = ex.with_timeout(1000)
+        elif ln == "timeout_short":
+            ex = ex.with_timeout(0.5)
         elif ln == "cancel_on_shutdown":
             ex = ex.with_cancel_on_shutdown()
         chain.append(ex)
@@ -67,6 +69,12 @@ def scn_nested(ctx):
         ev.add("nested_submit_ret")
         nested_done.set()
 
+    gate = threading.Event()
+
+    def blocker():
+        gate.wait(LIMIT)
+        return 0
+
     def fn():
         if site == "callable":
             nested_submit()
@@ -82,11 +90,15 @@ def scn_nested(ctx):
             nested_submit()
         _poll_all(ds)
 
-    ex, chain = build(layers, base, dict(map_fn=map_fn, poll_fn=poll_fn))
+    ex, chain = build(layers, base, dict(map_fn=map_fn, poll_fn=poll_fn), workers=1 if p.get("block_callable") else 2)
     holder["ex"] = ex
     out = {}
 
     def client():
+        if p.get("block_callable"):
+            # the only worker is busy: the next submission stays queued (cancellable) until the
+            # short timeout fires, and its done-callback is then run by the timeout thread
+            out["blocker"] = chain[0].submit(blocker)
         f = ex.submit(fn)
         out["f"] = f
         if site == "callback":
@@ -111,9 +123,12 @@ def scn_nested(ctx):
         return
     wait_done(out["f"], sched.now() + LIMIT)
     nested_done.wait(LIMIT)
+    gate.set()
     ctx.check("nested-submit-happened", did[0], "the nesting site %s was never reached" % site)
     ctx.check("nested-submit-returns", bool(ev.of("nested_submit_ret")) or not did[0], "nested submit() did not return")
     ctx.check("outer-future-completes", out["f"].done(), "outer future pending")
+    if p.get("block_callable"):
+        ctx.reach("timeout-fired-nested")
     if inner:
         wait_done(inner[0], sched.now() + LIMIT)
         ctx.check("inner-future-completes", inner[0].done() and outcome(inner[0]) == ("value", "leaf"), outcome(inner[0]))
@@ -199,7 +214,7 @@ ASSUMPTIONS = ["a client call that has not returned after 400 virtual seconds (n
                "lock-order cycles are searched by exploring schedules directly (preemption-bounded); the SMT-based prediction over lock traces (engine L of the design) is not built"]
 BOUNDS_TEXT = {"quick": "nested submit from callable/map fn/poll fn/done-callback on every single layer over sync and thread_pool(2) (P<=1); 3-thread client programs over every single layer x 2 bases (P<=1 sync, P=0 pool)",
                "thorough": "P<=2; two-layer stacks"}
-MUST_REACH = {"*": ["nested-ok", "clients-ran"]}
+MUST_REACH = {"*": ["nested-ok", "clients-ran", "timeout-fired-nested"]}
 BUDGET = {"quick": 150.0, "thorough": 1500.0}
 
 
@@ -213,6 +228,10 @@ def plan(tier, seed):
             sites = ["callable", "callback"] + (["map_fn"] if ln == "map" else []) + (["poll_fn"] if ln == "poll" else [])
             for site in sites:
                 items.append(dict(scenario="nested", params=dict(layers=[ln], base=base, site=site), bounds=dict(lpredict=True, P=(1 if q else 2) if base == "sync" else (0 if q else 1))))
+        if base == "pool":
+            # the timeout really fires on a running callable; the done-callback (run by the timeout thread) submits again
+            items.append(dict(scenario="nested", params=dict(layers=["timeout_short"], base=base, site="callback", block_callable=True), bounds=dict(lpredict=True, P=0 if q else 1)))
+            items.append(dict(scenario="nested", params=dict(layers=["timeout_short", "map"], base=base, site="callback", block_callable=True), bounds=dict(lpredict=True, P=0)))
         if base == "sync":
             for ln in SINGLE:
                 items.append(dict(scenario="nested", params=dict(layers=[ln], base=base, site="callable", extra_client=True), bounds=dict(lpredict=True, P=1 if q else 2)))
